@@ -35,3 +35,71 @@ def clear_caches(mod) -> int:
             except Exception:  # pylint: disable=broad-except
                 pass
     return n
+
+
+class ModuleState:
+    """Snapshot of the mutable module-level state of a module of the tree under verification, taken when the harness
+    imports it (before any case has run), and a way to put it back. Covers (a) private module-level mappings and `.cache`
+    mappings of the module's functions - restored to their snapshot CONTENT rather than emptied, so that a constant lookup
+    table that merely looks like a cache is left intact; (b) private module-level instances of classes defined in the
+    module itself (a "most recent result" holder, a registry object): their attributes are restored; (c) private
+    module-level lists and sets. Anything else (closures, class attributes) is out of reach and documented as such."""
+
+    def __init__(self, mod):
+        self.mod = mod
+        self.maps = {k: dict(v) for k, v in cache_containers(mod).items()}
+        self.objs = {}
+        self.seqs = {}
+        for name, obj in vars(mod).items():
+            if not name.startswith("_") or name.startswith("__"):
+                continue
+            if isinstance(obj, (list, set)):
+                self.seqs[name] = type(obj)(obj)
+            elif (type(obj).__module__ == mod.__name__ and not isinstance(obj, type) and not callable(obj)
+                  and not isinstance(obj, MutableMapping)):
+                self.objs[name] = self._attrs(obj)
+
+    @staticmethod
+    def _attrs(obj):
+        out = {}
+        for klass in type(obj).__mro__:
+            for s in getattr(klass, "__slots__", ()) or ():
+                if isinstance(s, str) and hasattr(obj, s):
+                    out[s] = getattr(obj, s)
+        out.update(getattr(obj, "__dict__", {}))
+        return out
+
+    def restore(self) -> None:
+        live = cache_containers(self.mod)
+        for k, snap in self.maps.items():
+            c = live.get(k)
+            if c is None:
+                continue
+            c.clear()
+            try:
+                c.update(snap)
+            except Exception:  # pylint: disable=broad-except
+                pass
+        for name, attrs in self.objs.items():
+            obj = getattr(self.mod, name, None)
+            if obj is None:
+                continue
+            for a, v in attrs.items():
+                try:
+                    setattr(obj, a, v)
+                except Exception:  # pylint: disable=broad-except
+                    pass
+        for name, snap in self.seqs.items():
+            obj = getattr(self.mod, name, None)
+            if isinstance(obj, list):
+                obj[:] = list(snap)
+            elif isinstance(obj, set):
+                obj.clear()
+                obj.update(snap)
+        for obj in list(vars(self.mod).values()):
+            cc = getattr(obj, "cache_clear", None)
+            if callable(cc) and getattr(obj, "__module__", None) == self.mod.__name__:
+                try:
+                    cc()
+                except Exception:  # pylint: disable=broad-except
+                    pass
